@@ -617,10 +617,52 @@ func c17Bundle(c *rt.C, b *jBundle, plans []*jEntityPlan, id, class string) {
 // c17Consistency checks what does not depend on any naming convention: the
 // expansion compiles, every annotation carries one entity name, and the client
 // API derived from it lists exactly one entity with its three query methods.
-func c17Consistency(c *rt.C, name string, id string) {
+func c17Consistency(c *rt.C, name string, id string) { c17ConsistencyKeys(c, name, "", id) }
+
+// c17ConsistencyKeys: keyName, when set, renames the first primary key (and the command fields that repeat it) to a
+// name whose case conversion is not a round trip; what the client API says about keys is then compared with the
+// declared (JSON) names only.
+func c17ConsistencyKeys(c *rt.C, name, keyName, id string) {
 	g := &j5Gen{rng: c.Rand()}
 	p := g.entityPlan("solo.v1", nil, 0, 1)
-	p.E.Name = name
+	if name != "" {
+		p.E.Name = name
+	}
+	if keyName != "" {
+		old := p.PrimaryKeys[0]
+		rename := func(fs []*jF) {
+			for _, f := range fs {
+				if f.Name == old {
+					f.Name = keyName
+				}
+			}
+		}
+		rename(p.E.Keys)
+		if p.E.Shard[old] {
+			delete(p.E.Shard, old)
+			p.E.Shard[keyName] = true
+		}
+		for _, cs := range p.E.Commands {
+			for _, m := range cs.Methods {
+				rename(m.Req)
+				m.Path = strings.ReplaceAll(m.Path, ":"+old+"/", ":"+keyName+"/")
+			}
+		}
+		for _, sum := range p.E.Summary {
+			rename(sum)
+		}
+		for i, k := range p.PrimaryKeys {
+			if k == old {
+				p.PrimaryKeys[i] = keyName
+			}
+		}
+		for i, k := range p.PathKeys {
+			if k == old {
+				p.PathKeys[i] = keyName
+			}
+		}
+		name = p.E.Name
+	}
 	for _, cs := range p.E.Commands {
 		for _, m := range cs.Methods {
 			m.HasRes, m.Res = false, nil // the planned responses name the state by the planned entity name
@@ -708,6 +750,22 @@ func c17Consistency(c *rt.C, name string, id string) {
 			if len(e.CommandServices) != len(p.E.Commands) {
 				c.Violate("entity/unusual-name/client-commands", fmt.Sprintf("%s: the client entity of %q lists %d command services, declared %d", id, name, len(e.CommandServices), len(p.E.Commands)), det())
 			}
+			if keyName != "" {
+				if !sameStrings(e.PrimaryKey, p.PrimaryKeys) {
+					c.Violate("entity/unusual-key/client-primary-key", fmt.Sprintf("%s: client primary key %v, declared %v", id, e.PrimaryKey, p.PrimaryKeys), det())
+				}
+				if e.QueryService != nil && len(e.QueryService.Methods) == 3 {
+					for _, mi := range []int{0, 2} {
+						m := e.QueryService.Methods[mi]
+						if m.Request == nil {
+							continue
+						}
+						if got := propNames(m.Request.PathParameters); !sameStrings(got, p.PathKeys) {
+							c.Violate("entity/unusual-key/client-path-parameters", fmt.Sprintf("%s: client %s (path %s) has path parameters %v, the declared primary and shard keys are %v", id, m.Name, m.HttpPath, got, p.PathKeys), det())
+						}
+					}
+				}
+			}
 		}
 	}
 	if n != 1 {
@@ -720,6 +778,13 @@ func runC17(r *rt.Runner) {
 	for _, name := range []string{"HTTPThing", "fooID", "FooID", "Foo2", "foo2bar", "foo2Bar", "FOO", "X", "aB", "fooBAR", "Foo_Bar", "foo_Bar", "FOO_BAR", "fooBarBaz", "foo_bar_baz", "v1Thing", "Foo9Bar9"} {
 		name := name
 		r.Do("unusual/"+name, func(c *rt.C) { c17Consistency(c, name, "unusual:"+name) })
+	}
+	for _, key := range []string{"orderID", "apiURL", "x2", "v2Id", "skuCODE", "id"} {
+		key := key
+		for rep := 0; rep < 3; rep++ {
+			rep := rep
+			r.Do(fmt.Sprintf("unusual-key/%s/%d", key, rep), func(c *rt.C) { c17ConsistencyKeys(c, "", key, fmt.Sprintf("unusual-key:%s/%d", key, rep)) })
+		}
 	}
 	// every name style x word count, alone in a package
 	for style := 0; style < 3; style++ {
